@@ -161,7 +161,8 @@ async def async_connect(transport):
     """Connect to the socket."""
     loop = asyncio.get_running_loop()
     try:
-        while True:
+        # Stop dialling when the gateway was stopped, like the threaded flavour.
+        while transport.protocol:
             _LOGGER.info("Trying to connect to %s", transport.gateway.server_address)
             try:
                 await asyncio.wait_for(
